@@ -195,8 +195,6 @@ var blockAccepted = []blockAccept{
 		"waitlist has capacity 1 and the callback removes itself and cancels cctx before it could run a second time (guarded by cctx.Err() under the same local mutex)"},
 	{"(*internal/dkg.Process).Command", "receive", "internal/dkg.Process.lock",
 		"operator command on the local control port; the channel is closed by gossip's waiter goroutine after a bounded number of bounded-time retries"},
-	{"(*internal/dkg.echoBroadcast).BroadcastDKG", "call (*internal/dkg.echoBroadcast).passToApplication", "internal/dkg.echoBroadcast.Mutex",
-		"NOT ANALYSED: the consumer of dealCh/respCh/justCh is kyber's dkg.Protocol (third party); only validly signed, not yet seen bundles of group members reach the send and the channels hold one bundle per participant (candidate F15 in DESIGN.md, not demonstrated)"},
 	{"(*internal/core.BeaconProcess).newBeacon", "call internal/chain/beacon.NewHandler", "internal/core.BeaconProcess.state",
 		"start-up of a beacon handler: AddCallback runs on a callback store created in the same call, no job channel exists yet so the send branch is not taken"},
 }
